@@ -4,6 +4,7 @@ import (
 	"fmt"
 	"go/ast"
 	"go/parser"
+	"go/printer"
 	"go/token"
 	"path/filepath"
 	"sort"
@@ -527,12 +528,18 @@ func translateExt(fset *token.FileSet, load fileLoader, sp spec, known map[strin
 	if fd == nil {
 		fail(token.Position{Filename: sp.File}, "function %s (recv %q) not found", sp.Func, sp.Recv)
 	}
+	if sp.Frag != nil {
+		fd = fragmentFunc(fset, fd, sp)
+	}
 	x := &xtr{fset: fset, sp: sp, env: map[string]*xty{}, structs: map[string]*xstruct{}, consts: map[string]xval{},
 		shared: map[string]bool{}, loops: map[ast.Stmt]*loopInfo{}, ptrParams: map[string]bool{}, params: map[string]bool{}, prims: map[string]bool{},
 		aliases: map[string]*xty{}, known: known}
 	x.fname = sp.Func
 	if sp.Recv != "" {
 		x.fname = sp.Recv + "_" + sp.Func
+	}
+	if sp.Name != "" {
+		x.fname = sp.Name
 	}
 	var out []genFunc
 	// struct types named by the spec, in order (later ones may use earlier ones)
@@ -744,6 +751,64 @@ func translateExt(fset *token.FileSet, load fileLoader, sp spec, known map[strin
 		known[sp.Func] = ft
 	}
 	return out
+}
+
+// the function `func(<Params>) (<types of Results>) { <statements First..Last>; return <Results> }`
+func fragmentFunc(fset *token.FileSet, fd *ast.FuncDecl, sp spec) *ast.FuncDecl {
+	fr := sp.Frag
+	line := func(s ast.Stmt) string {
+		var b strings.Builder
+		printer.Fprint(&b, fset, s)
+		return strings.Join(strings.Fields(strings.SplitN(b.String(), "\n", 2)[0]), " ")
+	}
+	var found []ast.Stmt
+	matches := 0
+	ast.Inspect(fd.Body, func(n ast.Node) bool {
+		b, ok := n.(*ast.BlockStmt)
+		if !ok {
+			return true
+		}
+		for i, s := range b.List {
+			if !strings.HasPrefix(line(s), fr.First) {
+				continue
+			}
+			matches++
+			for j := i; j < len(b.List); j++ {
+				if strings.HasPrefix(line(b.List[j]), fr.Last) {
+					found = b.List[i : j+1]
+					break
+				}
+			}
+		}
+		return true
+	})
+	if matches != 1 || found == nil {
+		fail(fset.Position(fd.Pos()), "fragment of %s: %d statements start with %q, and the run up to %q was %sfound", sp.Func, matches, fr.First, fr.Last, map[bool]string{true: "", false: "not "}[found != nil])
+	}
+	ptypes := map[string]string{}
+	for _, p := range fr.Params {
+		nt := strings.SplitN(p, " ", 2)
+		if len(nt) != 2 {
+			fail(fset.Position(fd.Pos()), "fragment parameter %q", p)
+		}
+		ptypes[nt[0]] = nt[1]
+	}
+	var rts []string
+	for _, r := range fr.Results {
+		t, ok := ptypes[r]
+		if !ok {
+			fail(fset.Position(fd.Pos()), "fragment result %s is not one of its parameters", r)
+		}
+		rts = append(rts, t)
+	}
+	src := fmt.Sprintf("package p\nfunc f(%s) (%s) { return %s }\n", strings.Join(fr.Params, ", "), strings.Join(rts, ", "), strings.Join(fr.Results, ", "))
+	pf, err := parser.ParseFile(fset, "fragment of "+sp.File+":"+sp.Func, src, parser.SkipObjectResolution)
+	if err != nil {
+		fail(fset.Position(fd.Pos()), "fragment signature: %v", err)
+	}
+	nf := pf.Decls[0].(*ast.FuncDecl)
+	nf.Body.List = append(append([]ast.Stmt{}, found...), nf.Body.List...)
+	return nf
 }
 
 // parameters of slice / map type whose elements the body writes (in-place sort, element assignment)
